@@ -26,7 +26,7 @@ ASSUMPTIONS = [
 COMPONENTS = {'real': ['yldprolog.compiler', 'yldprolog.engine query/register_function/match_dynamic, module-level unify/get_value', 'generated clause code'],
               'stub': ['consumer schedule (enumerate / close / drop / re-run)', 'native predicates built from the fact tables, with raise switches'],
               'oracle': ['twin engine A (all compiled) under the same schedule; identity of the injected exception object; argument types seen by the natives']}
-REQUIRED_PROBES = ('engine_with_earlier_registrations', 'style_decorated', 'twin_comparisons', 'native_invocations', 'style_inferred', 'style_explicit', 'style_variadic', 'yield_true', 'yield_false',
+REQUIRED_PROBES = ('engine_with_earlier_registrations', 'style_decorated', 'style_delegate', 'twin_comparisons', 'native_invocations', 'style_inferred', 'style_explicit', 'style_variadic', 'yield_true', 'yield_false',
                    'raise_fired', 'raise_arrived_same_object', 'native_next_to_dynamic_facts', 'abandon_close', 'abandon_drop')
 TERM_TYPES = {'Atom', 'Variable', 'Functor', 'int', 'str', 'float', 'NoneType', 'bool'}
 
@@ -43,14 +43,14 @@ def gen(seed, tier):
     world['native'] = [x for x in world['native'] if (x[0], x[1]) in called or rng.random() < 0.3]
     for (n, a) in called:
         if rng.random() < 0.5 and not any(x[0] == n and x[1] == a for x in world['native']):
-            world['native'].append([n, a, rng.choice(['inferred', 'explicit', 'variadic', 'decorated', 'prebuilt', 'explicit-varargs']), rng.random() < 0.5])
+            world['native'].append([n, a, rng.choice(['inferred', 'explicit', 'variadic', 'decorated', 'prebuilt', 'explicit-varargs', 'delegate']), rng.random() < 0.5])
     if not world['native']:
         n, a = rng.choice(called or keys)
-        world['native'] = [[n, a, rng.choice(['inferred', 'explicit', 'variadic', 'decorated', 'prebuilt', 'explicit-varargs']), rng.random() < 0.5]]
+        world['native'] = [[n, a, rng.choice(['inferred', 'explicit', 'variadic', 'decorated', 'prebuilt', 'explicit-varargs', 'delegate']), rng.random() < 0.5]]
     if world.get('has_n'):
         # the native-only predicate of C03 gets a compiled twin here
         world['facts'] = world['facts'] + [['n', 1, [[['a', 'a']], [['a', 'c']], [['f', 'f', [['v', 0]]]]]]]
-        world['native'] = world['native'] + [['n', 1, rng.choice(['inferred', 'explicit', 'variadic', 'decorated', 'prebuilt', 'explicit-varargs']), rng.random() < 0.5]]
+        world['native'] = world['native'] + [['n', 1, rng.choice(['inferred', 'explicit', 'variadic', 'decorated', 'prebuilt', 'explicit-varargs', 'delegate']), rng.random() < 0.5]]
         world['has_n'] = False
     if rng.random() < 0.5:
         # natives "next to dynamic facts": make sure some native predicate also has dynamic facts
